@@ -388,10 +388,13 @@ func OP_NEW_MAP_Handler(v *VM) {
 	v.pc += w
 
 	m := val.Map(ty.(*types.Type).Map()).Map()
+	// 保持字面量声明顺序, 重复 key 后者覆盖前者 (与 closure/interp 一致)
+	pairs := make([]*val.Val, sz*2)
+	for i := sz*2 - 1; i >= 0; i-- {
+		pairs[i] = v.Pop()
+	}
 	for i := 0; i < sz; i++ {
-		vl := v.Pop()
-		key := v.Pop()
-		m.V[key.Key()] = vl
+		m.V[pairs[i*2].Key()] = pairs[i*2+1]
 	}
 	v.Push(m.Vl())
 }
